@@ -17,29 +17,51 @@ Proof.
   - cbn. split; [|reflexivity]. left. cbn. unfold leaf_wf. cbn. repeat split; auto. discriminate.
 Qed.
 
-Lemma remove_empty_leaf a b k :
-  tremove (Leaf [] a b) k = RPanic \/ tremove (Leaf [] a b) k = R (Leaf [] a b) false false.
+(* Remove on an empty root leaf (len(n.Names) == 0) is a no-op that reports (false, false) *)
+Lemma remove_empty_leaf a b k : tremove (Leaf [] a b) k = R (Leaf [] a b) false false.
+Proof. reflexivity. Qed.
+
+(* Remove never panics, on ANY tree (well-formed or not) *)
+Lemma remove_leaf_total ns a b k : remove_leaf ns a b k <> RPanic.
 Proof.
-  cbn. unfold remove_leaf. destruct (kltb k a || kltb b k); [right; reflexivity|].
-  destruct (keqb k a); [left; reflexivity|]. destruct (keqb k b); [left; reflexivity|]. right; reflexivity.
+  unfold remove_leaf. destruct ns as [|e1 r0]; [discriminate|].
+  unfold remove_leaf_names. destruct (kltb k a || kltb b k); [discriminate|].
+  destruct r0 as [|e2 r]; [discriminate|].
+  destruct (keqb k a); [destruct e2; discriminate|].
+  destruct (keqb k b).
+  - cbv zeta. change (removelast (e1 :: e2 :: r)) with (e1 :: removelast (e2 :: r)). discriminate.
+  - destruct (rm_names (e1 :: e2 :: r) k); discriminate.
 Qed.
 
-(* exactly when Remove panics on an empty leaf: k is within its (stale) limits and equals one of them *)
-Lemma remove_empty_leaf_panic_iff a b k :
-  tremove (Leaf [] a b) k = RPanic <-> (kle a k /\ kle k b /\ (k = a \/ k = b)).
+Lemma remove_kids_total k l : Forall (fun c => forall k, tremove c k <> RPanic) l -> remove_kids k l <> KPanic.
 Proof.
-  cbn. unfold remove_leaf.
-  destruct (kltb_spec k a) as [H1|H1]; cbn [orb].
-  - split; [discriminate|]. intros (H & _). order.
-  - destruct (kltb_spec b k) as [H2|H2].
-    + split; [discriminate|]. intros (_ & H & _). order.
-    + destruct (keqb_spec k a) as [->|Na]; [tauto|].
-      destruct (keqb_spec k b) as [->|Nb]; [tauto|].
-      cbn. split; [discriminate|]. intros (_ & _ & [E|E]); congruence.
+  induction l as [|c r IH]; intros HF; [discriminate|]. inversion HF as [|? ? Hc HFr]; subst.
+  change (remove_kids k (c :: r)) with
+    (if within c k then
+        match tremove c k with
+        | RPanic => KPanic
+        | R c' e ok => if ok then (if e then KDropped r else KKept (c' :: r)) else KFail (c' :: r)
+        end
+      else match remove_kids k r with
+           | KNone => KNone
+           | KPanic => KPanic
+           | KFail l' => KFail (c :: l')
+           | KKept l' => KKept (c :: l')
+           | KDropped l' => KDropped (c :: l')
+           end).
+  destruct (within c k).
+  - specialize (Hc k). destruct (tremove c k) as [|c' e ok]; [congruence|]. destruct ok; [destruct e|]; discriminate.
+  - specialize (IH HFr). destruct (remove_kids k r); try discriminate. congruence.
 Qed.
 
-Lemma remove_no_panic t k : wf t -> tremove t k <> RPanic.
-Proof. intros Hw E. destruct (remove_ok t k Hw) as (n' & e & ok & E' & _). congruence. Qed.
+Lemma remove_total n : forall k, tremove n k <> RPanic.
+Proof.
+  induction n as [ns a b|kids a b IH] using node_ind'; intros k.
+  - apply remove_leaf_total.
+  - rewrite tremove_inner. pose proof (remove_kids_total k kids IH) as Hk.
+    destruct (remove_kids k kids) as [| |l'|l'|l']; try discriminate; [congruence|].
+    destruct l' as [|c1 [|c2 r]]; discriminate.
+Qed.
 
 Lemma remove_inv t k t' e ok : Inv t -> tremove t k = R t' e ok ->
   Inv t' /\ entries t' = m_remove k (entries t) /\ (ok = true <-> In k (keys t)) /\
@@ -53,7 +75,7 @@ Proof.
     + intros _. destruct e.
       * destruct (Hemp eq_refl) as (a & b & ->). cbn. tauto.
       * split; [discriminate|]. intros En. destruct (wf_good t' (Hwf eq_refl)) as (Hne & _). contradiction.
-  - destruct (remove_empty_leaf a b k) as [H|H]; rewrite H in E; [discriminate|].
+  - rewrite remove_empty_leaf in E.
     inversion E; subst. split; [right; eauto|]. split; [reflexivity|]. split; [|discriminate].
     cbn. split; [discriminate|tauto].
 Qed.
@@ -102,19 +124,19 @@ Fixpoint rn_fresh (m : list entry) (ops : list op) : Prop :=
   | o :: r => match o with OAddRn k _ => m_lookup k m = None | _ => True end /\ rn_fresh (spec_step m o) r
   end.
 
-Lemma history_inv ops : forall t t', Inv t -> rn_fresh (entries t) ops -> run ops t = Some t' ->
-  Inv t' /\ entries t' = spec_run ops (entries t).
+Lemma history_inv ops : forall t, Inv t -> rn_fresh (entries t) ops ->
+  exists t', run ops t = Some t' /\ Inv t' /\ entries t' = spec_run ops (entries t).
 Proof.
-  induction ops as [|o r IH]; intros t t' Hi Hf Hr.
-  - cbn in Hr. inversion Hr; subst. split; [exact Hi|reflexivity].
-  - cbn [run] in Hr. destruct Hf as [Ho Hf]. unfold spec_run. cbn [fold_left]. fold (spec_run r (spec_step (entries t) o)).
-    destruct o as [k v|k v|k]; cbn [step] in Hr.
-    + destruct (add_inv t k v Hi) as [Hi' He']. cbn [spec_step] in *. rewrite <- He' in *. exact (IH _ _ Hi' Hf Hr).
-    + rewrite (add_rn_fresh t k v Ho) in Hr.
-      destruct (add_inv t k v Hi) as [Hi' He']. cbn [spec_step] in *. rewrite <- He' in *. exact (IH _ _ Hi' Hf Hr).
-    + destruct (tremove t k) as [|t1 e ok] eqn:E; [discriminate|].
+  induction ops as [|o r IH]; intros t Hi Hf.
+  - exists t. split; [reflexivity|]. split; [exact Hi|reflexivity].
+  - cbn [run]. destruct Hf as [Ho Hf]. unfold spec_run. cbn [fold_left]. fold (spec_run r (spec_step (entries t) o)).
+    destruct o as [k v|k v|k]; cbn [step].
+    + destruct (add_inv t k v Hi) as [Hi' He']. cbn [spec_step] in *. rewrite <- He' in *. exact (IH _ Hi' Hf).
+    + rewrite (add_rn_fresh t k v Ho).
+      destruct (add_inv t k v Hi) as [Hi' He']. cbn [spec_step] in *. rewrite <- He' in *. exact (IH _ Hi' Hf).
+    + destruct (tremove t k) as [|t1 e ok] eqn:E; [exfalso; exact (remove_total t k E)|].
       destruct (remove_inv t k t1 e ok Hi E) as (Hi' & He' & _). cbn [spec_step] in *. rewrite <- He' in *.
-      exact (IH _ _ Hi' Hf Hr).
+      exact (IH _ Hi' Hf).
 Qed.
 
 (* the specification side keeps its list sorted, so m_lookup on it is a finite map (ProofsOrder) *)
@@ -182,10 +204,10 @@ Definition kA : key := [97%N].
 Definition kB : key := [98%N].
 Definition kC : key := [99%N].
 
-(* Remove("") on the empty tree panics (index out of range in removeFromLeaf) *)
-Lemma remove_empty_key_on_empty_tree_panics : run [ORemove []] empty_tree = None.
+(* regression examples for the fixed defect: Remove("") on the empty tree is a no-op *)
+Lemma remove_empty_key_on_empty_tree_ok : run [ORemove []] empty_tree = Some empty_tree.
 Proof. reflexivity. Qed.
-Lemma remove_after_last_key_panics : run [OAdd kA 1%N; ORemove kA; ORemove []] empty_tree = None.
+Lemma remove_after_last_key_ok : run [OAdd kA 1%N; ORemove kA; ORemove []] empty_tree = Some empty_tree.
 Proof. vm_compute. reflexivity. Qed.
 
 (* Add in rename mode: a,b,b,c,b leaves the key b\x01 twice in the tree *)
@@ -207,12 +229,13 @@ Proof.
   - apply IH. exact (lsorted_tail _ _ Hs).
 Qed.
 
-Lemma history_full ops t t' : Inv t -> rn_fresh (entries t) ops -> run ops t = Some t' ->
-  Inv t' /\ entries t' = spec_run ops (entries t) /\ lsorted (keys t') /\ NoDup (keys t') /\
-  (forall k, tvalue t' k = m_lookup k (spec_run ops (entries t))).
+Lemma history_full ops t : Inv t -> rn_fresh (entries t) ops ->
+  exists t', run ops t = Some t' /\ Inv t' /\ entries t' = spec_run ops (entries t) /\
+             lsorted (keys t') /\ NoDup (keys t') /\
+             (forall k, tvalue t' k = m_lookup k (spec_run ops (entries t))).
 Proof.
-  intros Hi Hf Hr. destruct (history_inv ops t t' Hi Hf Hr) as [Hi' He].
-  split; [exact Hi'|]. split; [exact He|]. split; [apply inv_sorted; exact Hi'|].
+  intros Hi Hf. destruct (history_inv ops t Hi Hf) as (t' & Hr & Hi' & He). exists t'.
+  split; [exact Hr|]. split; [exact Hi'|]. split; [exact He|]. split; [apply inv_sorted; exact Hi'|].
   split; [apply lsorted_NoDup; apply inv_sorted; exact Hi'|].
   intros k. rewrite <- He. apply inv_value. exact Hi'.
 Qed.
